@@ -413,17 +413,34 @@ Proof. vm_compute. reflexivity. Qed.
 SPEC["C11"] = {
     "header": """C11 — a filter set survives being saved as a script and loaded back.
 
-   Proved here (factory/TextFacts.v over factory/Text.v and sieve/Lexer.v): the marker comments.
-   The line FiltersSet.tosieve writes before a filter ([pretext ++ text], LF) is ONE hash-comment token
-   ending before the line feed; the parser stores it stripped ([stored_comment]); from_parser_result
-   ([recover]) gives back exactly the name / description, for every marker that starts with a
-   non-blank byte, and every text that does not end in a blank and does not contain the marker.
-   The editing operations preserve "enabled = not wrapped" in every reachable state (C12), which is
-   what reloading the enabled flag rests on.  Tree equality of reloaded filters rests on C04 and is
-   exercised on the implementation (render -> parse -> from_parser_result -> render fixed point) over
-   generated histories, names, descriptions and marker prefixes.""",
-    "imports": TEXT_IMPORTS,
+   Models: factory/Build.v (FiltersSet.tosieve: require line, marker comments, filters), sieve/Machine.v (the
+   parser, which collects the hash comments of every top-level command), factory/Load.v
+   (FiltersSet.from_parser_result), each run against the implementation on every check.
+   Proved (factory/LoadFacts.v over BuildSet.v, PrintTree.v, CompleteTree.v; factory/TextFacts.v):
+     (a) the marker line written before a filter is ONE hash-comment token ending before the line feed, the
+         parser stores it stripped, and from_parser_result recovers the name / description exactly, for every
+         marker that starts with a non-blank byte and every text that does not end in a blank and does not
+         contain the marker (with witnesses that both hypotheses are needed);
+     (b) C11_reload_same: for EVERY non-empty list of good filters (every documented condition/action form,
+         enabled or wrapped by disablefilter, with or without description) and requirements that cover them,
+         the text FiltersSet.tosieve writes is accepted by the parser, and from_parser_result applied to the
+         parsed commands returns the SAME requirements and the filters IN THE SAME ORDER with the same names,
+         descriptions and enabled flags -- unbounded over values, numbers of filters, conditions and actions;
+         the marker comments are attached to the right filter because the parser theorem
+         (CompleteTree.parse_commented_script through PrintTree.set_parses) says so for every commented script.
+   Hypotheses, besides those of C06: markers start with a non-blank byte, names/descriptions do not end in a
+   blank, do not contain their marker, and a name line cannot be taken for a description line or vice versa
+   (prefix conditions; all marker pairs used by callers in the harness satisfy them); the requirements have no
+   duplicate (FiltersSet.require never adds one).
+   The editing operations preserve "enabled = not wrapped" in every reachable state (C12).  That the reloaded
+   filters render to scripts with the same trees and that rendering the reloaded set is a fixed point rests on
+   C04 (print_parse_general) and is evaluated on the implementation over generated histories, names,
+   descriptions and marker prefixes.""",
+    "imports": TEXT_IMPORTS + "From SV Require Import Tables ArgCheck ArgSpec Machine Printer CompleteFacts CompleteTree RenderFacts PrintTree GenTables Ops Build BuildFacts BuildSet Load LoadFacts.\n",
     "theorems": [
+        ("C11_reload_same", "LoadFacts.reload_same", "save, parse, load: same requirements, same names in the same order, same descriptions, same enabled flags"),
+        ("C11_comments_attached", "PrintTree.set_parses", "every commented script laid out as FiltersSet.tosieve does parses to its commands with each comment attached to the command it precedes"),
+        ("C11_example_reload", "LoadFacts.ex_reload", "non-vacuity: the C06 example definition, once enabled and once disabled with a description and a non-ASCII name"),
         ("C11_comment_is_one_token", "TextFacts.scan_hash_line",
          "the marker line is one hash-comment token that ends before the line feed"),
         ("C11_recovered_exactly", "TextFacts.recover_stored",
